@@ -62,9 +62,13 @@ func (p *pp) Print(args ...interface{}) {
 	defer p.buf.SetMode(p.buf.GetMode())
 	np := newPrinter()
 	np.buf = p.buf
+	// The nested printer writes on behalf of the same operand: an
+	// enclosing Safe()/Unsafe() override keeps applying to it.
+	np.override = p.override
 	np.doPrint(args)
 	p.buf = np.buf
 	np.buf = buffer{}
+	np.override = noOverride
 	np.free()
 }
 
@@ -72,9 +76,13 @@ func (p *pp) Printf(format string, arg ...interface{}) {
 	defer p.buf.SetMode(p.buf.GetMode())
 	np := newPrinter()
 	np.buf = p.buf
+	// The nested printer writes on behalf of the same operand: an
+	// enclosing Safe()/Unsafe() override keeps applying to it.
+	np.override = p.override
 	np.doPrintf(format, arg)
 	p.buf = np.buf
 	np.buf = buffer{}
+	np.override = noOverride
 	np.free()
 }
 
